@@ -1566,7 +1566,8 @@ SoPlexBase<R>& SoPlexBase<R>::operator=(const SoPlexBase<R>& rhs)
       }
       else
       {
-         assert(intParam(SoPlexBase<R>::SYNCMODE) != SYNCMODE_ONLYREAL);
+         // rhs may hold a rational LP also in sync mode SYNCMODE_ONLYREAL: an exact solve and the rational violation
+         // getters create it on demand by _syncLPRational() and keep it
 
          // the rational LP this object held so far is replaced: release it
          if(_rationalLP != nullptr)
